@@ -487,6 +487,13 @@ func (s *Service) processWriteShardRequest(buf []byte) error {
 	}
 
 	points := req.Points()
+	for _, p := range points {
+		if p == nil {
+			// Points() leaves a nil entry for every point it could not decode; handing
+			// that to the store dereferences it and crashes the node.
+			return fmt.Errorf("write shard %d: request contains an unparsable point", req.ShardID())
+		}
+	}
 	atomic.AddInt64(&s.stats.WriteShardPointsReq, int64(len(points)))
 	err := s.TSDBStore.WriteToShard(req.ShardID(), points)
 
